@@ -424,3 +424,146 @@ mutant("c19-os-write-to-fd2", "C19", "cvss/cvss2.py",
        "            raise CVSS2MalformedError('Malformed CVSS2 vector, trailing \"/\"')",
        "            __import__('os').write(2, b'warning: trailing slash\\n')\n            raise CVSS2MalformedError('Malformed CVSS2 vector, trailing \"/\"')",
        "a diagnostic written with os.write(2, ...) bypasses sys.stderr")
+
+# ------------------------------------------------------------------------------ benign changes (negative controls)
+# Behaviour-preserving refactorings / cosmetic changes under which every property still holds: NO check may alarm.
+mutant("benign-prompt-reworded", "clean", "cvss/interactive.py",
+       """            print(METRICS_ABBREVIATIONS[metric] + ":", end=" ")
+            print("/".join(values), end=" ")
+            input_value""",
+       """            print("Your choice for " + METRICS_ABBREVIATIONS[metric] + " [" + ", ".join(values) + "]")
+            print("> ", end="")
+            input_value""",
+       "the question is worded and punctuated differently")
+mutant("benign-report-labels-reworded", "clean", edits=[
+    ("cvss/cvss_calculator.py", 'enumerate(["Base Score", "Temporal Score", "Environmental Score"])',
+     'enumerate(["Base score", "Temporal score", "Environmental score"])'),
+    ("cvss/cvss_calculator.py", 'print("Cleaned vector:       ", cvss_vector.clean_vector())', 'print("Clean vector  =       ", cvss_vector.clean_vector())'),
+    ("cvss/cvss_calculator.py", 'print("Red Hat vector:       ", cvss_vector.rh_vector())', 'print("RedHat vector =       ", cvss_vector.rh_vector())')],
+    note="report labels re-cased / re-punctuated")
+mutant("benign-report-labels-translated", "clean", edits=[
+    ("cvss/cvss_calculator.py", 'enumerate(["Base Score", "Temporal Score", "Environmental Score"])',
+     'enumerate(["Basis", "Zeitlich", "Umgebung"])'),
+    ("cvss/cvss_calculator.py", 'print("Cleaned vector:       ", cvss_vector.clean_vector())', 'print("Bereinigt:            ", cvss_vector.clean_vector())'),
+    ("cvss/cvss_calculator.py", 'print("Red Hat vector:       ", cvss_vector.rh_vector())', 'print("RH:                   ", cvss_vector.rh_vector())')],
+    note="labels the oracle does not know at all: it must fall back to the values")
+mutant("benign-json-on-label-line", "clean", "cvss/cvss_calculator.py",
+       'print("CVSS vector in JSON:", json_output, sep="\\n")', 'print("CVSS vector in JSON: " + json_output)',
+       "the JSON document starts on the line of its label")
+mutant("benign-v2-ratings-printed", "clean", "cvss/cvss_calculator.py",
+       "                        score = (scores[i],)",
+       '                        score = scores[i], "({0})".format(cvss_vector.severities()[i])',
+       "v2 score lines carry the library's rating too")
+mutant("benign-as-json-correct-cache", "clean", edits=[
+    ("cvss/cvss4.py", """        # OrderedDict, so that the key order does not depend on the Python version
+        data = OrderedDict(
+            [
+                ("version", "4"),""",
+     """        _cache = self.__dict__.setdefault("_json_cache", {})
+        if sort in _cache:
+            return OrderedDict(_cache[sort])
+
+        # OrderedDict, so that the key order does not depend on the Python version
+        data = OrderedDict(
+            [
+                ("version", "4"),"""),
+    ("cvss/cvss4.py", """        if sort:
+            data = OrderedDict(sorted(data.items()))
+        return data
+
+    def __hash__(self):
+        return hash(self.clean_vector())
+
+    def __eq__(self, o):
+        if isinstance(o, CVSS4):""",
+     """        if sort:
+            data = OrderedDict(sorted(data.items()))
+        _cache[sort] = data
+        return OrderedDict(data)
+
+    def __hash__(self):
+        return hash(self.clean_vector())
+
+    def __eq__(self, o):
+        if isinstance(o, CVSS4):""")],
+    note="a CORRECT per-instance cache: a copy is handed out every time")
+mutant("benign-correct-module-level-memo", "clean", edits=[
+    ("cvss/cvss2.py", "def round_to_1_decimal(value):", "_BASE_CACHE = {}\n\n\ndef round_to_1_decimal(value):"),
+    ("cvss/cvss2.py",
+     "        self.base_score = max(D(\"0.0\"), self.base_score_equation())",
+     """        key = tuple(self.metrics.get(m) for m in METRICS_MANDATORY)
+        score = _BASE_CACHE.get(key)
+        if score is None:
+            score = _BASE_CACHE[key] = max(D("0.0"), self.base_score_equation())
+        self.base_score = score""")],
+    note="a CORRECT process-wide memo (complete key, single read of the slot)")
+mutant("benign-call-counter", "clean", edits=[
+    ("cvss/cvss3.py", "def round_up(value):", "_constructed = 0\nSTATS = {\"constructed\": 0}\n\n\ndef round_up(value):"),
+    ("cvss/cvss3.py", "        self.vector = vector\n        self.minor_version = None",
+     "        global _constructed\n        _constructed += 1\n        self.vector = vector\n        self.minor_version = None")],
+    note="module-level statistics counter: process-global state that is not a constant table")
+mutant("benign-parser-ordered-dict", "clean", "cvss/parser.py",
+       "            if cvss not in seen:\n                seen.add(cvss)\n                cvsss.append(cvss)",
+       "            if cvss not in seen:\n                seen.add(cvss)\n                cvsss = cvsss + [cvss]",
+       "same result, list rebuilt instead of appended")
+mutant("benign-builder-reads-stdin-directly", "clean", edits=[
+    ("cvss/interactive.py", """try:
+    # noinspection PyUnresolvedReferences
+    string_input = raw_input
+except NameError:
+    string_input = input
+""", """import sys
+
+
+def string_input():
+    sys.stdout.flush()
+    line = sys.stdin.readline()
+    if not line:
+        raise EOFError("EOF when reading a line")
+    if not isinstance(line, type(u"")):
+        line = line.decode("utf-8", "replace")
+    return line[:-1] if line.endswith("\\n") else line
+""")],
+    note="a CORRECT replacement of input() (keeps a partial last line intact)")
+mutant("benign-errors-to-stderr", "clean", edits=[
+    ("cvss/cvss_calculator.py", "import argparse\nimport json\n", "import argparse\nimport json\nimport sys\n"),
+    ("cvss/cvss_calculator.py", "        except CVSSError as e:\n            print(e)\n", "        except CVSSError as e:\n            print(e, file=sys.stderr)\n")],
+    note="the library's error message goes to stderr (still printed, still exit status 0)")
+mutant("benign-localcontext-in-round-up", "clean", "cvss/cvss3.py",
+       '    return value.quantize(D("0.1"), rounding=ROUND_CEILING)',
+       '    import decimal\n\n    with decimal.localcontext() as ctx:\n        ctx.rounding = ROUND_CEILING\n        return value.quantize(D("0.1"))',
+       "the context is changed only inside a localcontext() block and restored")
+mutant("benign-main-returns-zero", "clean", "cvss/cvss_calculator.py",
+       "    except (KeyboardInterrupt, EOFError):\n        print()\n", "    except (KeyboardInterrupt, EOFError):\n        print()\n    return 0\n",
+       "main() returns 0 explicitly")
+mutant("benign-clean-vector-correct-memo", "clean", edits=[
+    ("cvss/cvss3.py", """        vector = []
+        for metric in METRICS_ABBREVIATIONS:
+            if metric in self.original_metrics:
+                value = self.original_metrics[metric]
+                if value != "X":
+                    vector.append("{0}:{1}".format(metric, value))
+        if output_prefix:
+            prefix = "CVSS:3.{0}/".format(self.minor_version)""",
+     """        memo = self.__dict__.setdefault("_clean", {})
+        if output_prefix in memo:
+            return memo[output_prefix]
+        vector = []
+        for metric in METRICS_ABBREVIATIONS:
+            if metric in self.original_metrics:
+                value = self.original_metrics[metric]
+                if value != "X":
+                    vector.append("{0}:{1}".format(metric, value))
+        if output_prefix:
+            prefix = "CVSS:3.{0}/".format(self.minor_version)"""),
+    ("cvss/cvss3.py", '''        else:
+            prefix = ""
+        return prefix + "/".join(vector)
+
+    def severities(self):''', '''        else:
+            prefix = ""
+        memo[output_prefix] = prefix + "/".join(vector)
+        return memo[output_prefix]
+
+    def severities(self):''')],
+    note="a CORRECT per-instance memo keyed by output_prefix")
